@@ -291,4 +291,76 @@ theorem stCol_at (fuel n : Nat) (s : State F) (hv : VS s n) (hrun : s.ctl = .run
       by rw [hia, a5]; exact hv.lenN, hv.pos⟩
   · rw [hia]; rw [hq]; exact a2
 
+/-- **`tree_nodes[x][TN_COLOR_ID] = e`** (a colour read from elsewhere) where `x` holds the root of the subtree at a
+    position -/
+theorem stColE_at (fuel n : Nat) (s : State F) (hv : VS s n) (hrun : s.ctl = .run) (xv : String) (e : IE)
+    (he : e.ok s = true) (ctx : Ctx)
+    (l : Sh) (i : Nat) (r : Sh) (hL : Linked (s.ia "tree_nodes") n (-1) (plug (.node l i r) ctx))
+    (hN : (plug (.node l i r) ctx).idxs.Nodup) (hx : s.ienv xv = i) :
+    let q := exec fuel (.stI2 "tree_nodes" (.var xv) (.lit 0) e) s
+    q.ctl = .run ∧ VS q n ∧ q.ienv = s.ienv ∧ q.fa = s.fa ∧
+      Linked (q.ia "tree_nodes") n (-1) (plug (.node l i r) ctx) ∧
+      absT (q.fa "tree_vals") (q.ia "tree_nodes") (plug (.node l i r) ctx) =
+        atPath (setCol (decide (e.eval s = 0))) (pathOf ctx)
+          (absT (s.fa "tree_vals") (s.ia "tree_nodes") (plug (.node l i r) ctx)) ∧
+      (∀ j k, k < 4 → ¬ (j = i ∧ k = 0) → nAt (q.ia "tree_nodes") j k = nAt (s.ia "tree_nodes") j k) ∧
+      nAt (q.ia "tree_nodes") i 0 = e.eval s := by
+  intro q
+  have hi : i + 1 < n := Linked.idx_lt hL i (mem_plug _ ctx _ (by simp [Sh.idxs]))
+  have hin : inRange (s.ienv xv) n = true := by rw [hx]; exact inRange_ptr n _ (by omega) hv.pos
+  have hq : q = { s with ia := setS s.ia "tree_nodes" ((s.ia "tree_nodes").set (i * 4) (e.eval s)) } := by
+    simp only [q]
+    rw [exec_stN fuel s n hv.shpN xv 0 e (by decide) hin he, hx, rowOf_nat]
+    rfl
+  obtain ⟨a1, a2, a3, a4, a5⟩ := setCol_arr (V := s.fa "tree_vals") ctx l i r (e.eval s) hL hN hv.lenN
+  have hia : q.ia "tree_nodes" = (s.ia "tree_nodes").set (i * 4) (e.eval s) := by rw [hq]; simp [setS]
+  refine ⟨by rw [hq]; exact hrun, ?_, by rw [hq], by rw [hq], by rw [hia]; exact a1, ?_, by rw [hia]; exact a3,
+    by rw [hia]; exact a4⟩
+  · exact ⟨by rw [hq]; exact hv.shpV, by rw [hq]; exact hv.shpN, by rw [hq]; exact hv.lenV,
+      by rw [hia, a5]; exact hv.lenN, hv.pos⟩
+  · rw [hia]; rw [hq]; exact a2
+
+/-- a colour cell holds `RB_RED = 0` or `RB_BLACK = 1` -/
+def ColV (c : Int) : Prop := c = 0 ∨ c = 1
+
+/-- a colour write of 0 / 1 keeps every colour cell sane -/
+theorem colV_of_store {N N' : List Int} {i : Nat} {c : Int} (hc : ColV c)
+    (hoth : ∀ j k, k < 4 → ¬ (j = i ∧ k = 0) → nAt N' j k = nAt N j k) (hi : nAt N' i 0 = c) :
+    ∀ j, ColV (nAt N j 0) → ColV (nAt N' j 0) := by
+  intro j hj
+  by_cases e : j = i
+  · rw [e, hi]; exact hc
+  · rw [hoth j 0 (by decide) (fun h => e h.1)]; exact hj
+
+theorem colV_of_eq {N N' : List Int} (h : ∀ j, nAt N' j 0 = nAt N j 0) : ∀ j, ColV (nAt N j 0) → ColV (nAt N' j 0) :=
+  fun j hj => by rw [h j]; exact hj
+
+/-- the root row of a tree with a non-empty context is a frame row -/
+theorem plug_ptr_mem : ∀ (rest : Ctx) (fr : Fr) (sub : Sh), ∃ j ∈ ctxIdxs (fr :: rest), (plug sub (fr :: rest)).ptr = (j : Int) := by
+  intro rest
+  induction rest with
+  | nil =>
+    intro fr sub
+    cases fr with
+    | L p pr => exact ⟨p, by simp [ctxIdxs], rfl⟩
+    | R pl p => exact ⟨p, by simp [ctxIdxs], rfl⟩
+  | cons f2 rest ih =>
+    intro fr sub
+    cases fr with
+    | L p pr =>
+      obtain ⟨j, hj, e⟩ := ih f2 (.node sub p pr)
+      exact ⟨j, by simp only [ctxIdxs]; simp [hj], e⟩
+    | R pl p =>
+      obtain ⟨j, hj, e⟩ := ih f2 (.node pl p sub)
+      exact ⟨j, by simp only [ctxIdxs]; simp [hj], e⟩
+
+/-- the root of a tree is no row of a proper position's subtree -/
+theorem plug_ptr_ne (fr : Fr) (rest : Ctx) (sub : Sh) (i : Nat) (hi : i ∈ sub.idxs)
+    (hN : (plug sub (fr :: rest)).idxs.Nodup) : (plug sub (fr :: rest)).ptr ≠ (i : Int) := by
+  obtain ⟨j, hj, e⟩ := plug_ptr_mem rest fr sub
+  have hnd := (nodup_plug_iff (fr :: rest) sub).mp hN
+  intro h
+  have : j = i := by rw [e] at h; omega
+  exact (List.nodup_append.mp hnd).2.2 i hi j hj this.symm
+
 end XrsVerif.ILVs
